@@ -133,6 +133,24 @@ def run_real(case):
       same = (_call(lambda: v2(v)) == acc and _call(lambda: v3(v)) == acc and _call(lambda: v2.is_marginal(v)) == marg
               and _call(lambda: v3.is_marginal(v)) == marg and val == v2 and val == v3 and not (val != v2)
               and str(val) == str(v2) == str(v3))
+      # equality means deciding identically: a validator with ONE limit moved or dropped must not compare equal if it
+      # decides (accepts / calls marginal) differently somewhere between and around the limits
+      nums = [r for r in raws if isinstance(r, (int, float)) and not isinstance(r, bool)]
+      if nums and all(r is None or (isinstance(r, (int, float)) and not isinstance(r, bool)) for r in raws):
+        lo, hi = min(nums) - 2, max(nums) + 2
+        grid = [lo + (hi - lo) * i / 16.0 for i in range(17)] + list(nums)
+        for i in range(4):
+          for alt in ((raws[i] + 1, raws[i] - 1, None) if raws[i] is not None else (min(nums), max(nums))):
+            r2 = list(raws)
+            r2[i] = alt
+            try:
+              other = validators.InRange(r2[0], r2[1], r2[2], r2[3], type=ty)
+            except ValueError:
+              continue
+            if (val == other or not (val != other)) and any(
+                _call(lambda: val(x)) != _call(lambda: other(x)) or
+                _call(lambda: val.is_marginal(x)) != _call(lambda: other.is_marginal(x)) for x in grid):
+              same = False
     except Exception:  # pylint: disable=broad-except
       same = False
     return {'real': ['ok', acc, marg, '1' if same else '0'], 'lims': lims, 'v': v}
